@@ -6,6 +6,7 @@ import os
 import sys
 import random
 import logging
+import types
 
 REPO = os.environ.get("VERIF_REPO", "/repo")
 MW = os.path.join(REPO, "middleware")
@@ -100,7 +101,8 @@ def install_transport(world):
     h.getDongle = make_get_dongle(world)
     ht.getDongle = make_get_dongle(world)
     h.hid = _FakeHid
-    lp.time.sleep = lambda s: None
+    # replace the module's *reference* to time, never time.sleep itself (others still need to sleep)
+    lp.time = types.SimpleNamespace(sleep=lambda s: None)
     try:
         import admin.dongle_admin as da
         da.getDongle = make_get_dongle(world)
